@@ -567,10 +567,12 @@ Ltac own I Lg Hp Hc t :=
   end.
 Ltac vsimp := cbn [v_hi v_tgt v_man v_files v_snaps v_fid v_next v_rot v_act hi_of pend_of rot_of] in *.
 
-Lemma tstep_inv : forall c st t st1 p1 ls,
+Definition distinct_ids (c : cfg) : Prop := forall n, c_clock c n = n.
+
+Lemma tstep_inv : forall c st t st1 p1 ls, distinct_ids c ->
   Inv st -> tstep c st t (tget (st_thr st) t) = Some (st1, p1, ls) -> Inv (set_thr st1 t p1).
 Proof.
-  intros c st t st1 p1 ls I H.
+  intros c st t st1 p1 ls Hclk I H.
   pose proof (inv_gate _ I) as Lg. pose proof (inv_mlock _ I) as Lm.
   pose proof (inv_gv _ I) as G. pose proof (inv_p _ I t) as Pt.
   destruct st as [nx sto slots cnt act bytes files snaps man fid gate mlock thr].
@@ -635,7 +637,7 @@ Proof.
   - (* WAppended *)
     destruct (negb (c_max_wal c =? 0) && (c_max_wal c <=? bytes)).
     + (* create the next segment file *)
-      fin H. own I Lg Hp Hc t.
+      rewrite Hclk in H. fin H. own I Lg Hp Hc t.
       rewrite (view_of_cur _ _ Hc) in G. vsimp. stf.
       pose proof (T_rotcreate _ G) as T. cbv zeta in T. vsimp.
       destruct T as [G' St].
@@ -697,7 +699,7 @@ Proof.
     pose proof (T_capture _ G) as T. rewrite (view_of_cur _ _ Hc) in *. vsimp. stf.
     cbn [apply_entries fold_left] in *. apply T. reflexivity.
   - (* SCaptured -> SFile *)
-    fin H. pose proof (T_savefile _ last copy G Pt) as T. cbv zeta in T. destruct T as [G' [Pn St]].
+    rewrite Hclk in H. fin H. pose proof (T_savefile _ last copy G Pt) as T. cbv zeta in T. destruct T as [G' [Pn St]].
     eapply (assemble _ _ t _ I); stf.
     + reflexivity.
     + keepl Hp.
@@ -804,9 +806,9 @@ Proof.
   - left. exact Hs.
 Qed.
 
-Lemma step_inv : forall c st e st', Inv st -> cstep c st e = Some st' -> Inv st'.
+Lemma step_inv : forall c st e st', distinct_ids c -> Inv st -> cstep c st e = Some st' -> Inv st'.
 Proof.
-  intros c st e st' I H. unfold cstep, cstep_l in H. destruct e as [t cl|t|t].
+  intros c st e st' Hclk I H. unfold cstep, cstep_l in H. destruct e as [t cl|t|t].
   - destruct (is_idle (tget (st_thr st) t)) eqn:Hid; [|discriminate]. inversion H; subst st'.
     apply start_inv; auto. exact Logic.I.
   - destruct (is_idle (tget (st_thr st) t)) eqn:Hid; [|discriminate]. inversion H; subst st'.
@@ -815,8 +817,9 @@ Proof.
     inversion H; subst st'. eapply tstep_inv; eauto.
 Qed.
 
-Lemma run_inv : forall c sched st st', Inv st -> crun c st sched = Some st' -> Inv st'.
+Lemma run_inv : forall c sched st st', distinct_ids c -> Inv st -> crun c st sched = Some st' -> Inv st'.
 Proof.
+  intros c sched st st' Hclk. revert st st'.
   induction sched as [|e r IH]; intros st st' I H; cbn [crun] in H.
   - inversion H; subst; exact I.
   - destruct (cstep c st e) as [s1|] eqn:E; [|discriminate]. eapply IH; [eapply step_inv; eauto|exact H].
@@ -844,8 +847,8 @@ Qed.
 
 Definition reachable (c : cfg) (st : state) : Prop := exists sched, crun c init sched = Some st.
 
-Lemma reachable_inv : forall c st, reachable c st -> Inv st.
-Proof. intros c st [sched H]. eapply run_inv; [exact init_inv|exact H]. Qed.
+Lemma reachable_inv : forall c st, distinct_ids c -> reachable c st -> Inv st.
+Proof. intros c st Hclk [sched H]. eapply run_inv; [exact Hclk|exact init_inv|exact H]. Qed.
 
 (* what a restart yields at ANY moment: the store plus the entries appended but not yet applied *)
 Definition in_flight (st : state) : list entry := pend_of (cur st).
@@ -875,17 +878,17 @@ Proof.
   rewrite (all_done_idle _ H g). reflexivity.
 Qed.
 
-Theorem quiescent_exact : forall c sched st,
+Theorem quiescent_exact : forall c sched st, distinct_ids c ->
   crun c init sched = Some st -> all_done st = true -> recover (disk_of st) = Some (st_store st).
 Proof.
-  intros c sched st H Hd. rewrite (recover_inv st) by (eapply reachable_inv; exists sched; exact H).
+  intros c sched st Hclk H Hd. rewrite (recover_inv st) by (eapply reachable_inv; [exact Hclk|exists sched; exact H]).
   rewrite (quiescent_no_flight _ Hd). reflexivity.
 Qed.
 
 (* at any moment, also with snapshots, rotations and compactions half done *)
-Theorem recover_any_time : forall c sched st,
+Theorem recover_any_time : forall c sched st, distinct_ids c ->
   crun c init sched = Some st -> recover (disk_of st) = Some (apply_entries (st_store st) (in_flight st)).
-Proof. intros c sched st H. apply recover_inv. eapply reachable_inv. exists sched. exact H. Qed.
+Proof. intros c sched st Hclk H. apply recover_inv. eapply reachable_inv; [exact Hclk|]. exists sched. exact H. Qed.
 
 (* ---------------------------------------------------------------------------------------------- *)
 (* (ii) the manifest's snapshot pointer only grows                                                  *)
@@ -919,15 +922,15 @@ Proof.
     inversion H; subst. cbn [set_thr st_man]. eapply tstep_ptr_mono; eauto.
 Qed.
 
-Theorem stale_never_wins : forall c sched0 st sched st',
+Theorem stale_never_wins : forall c sched0 st sched st', distinct_ids c ->
   crun c init sched0 = Some st -> crun c st sched = Some st' ->
   ptr_seq (st_man st) <= ptr_seq (st_man st').
 Proof.
-  intros c sched0 st sched st' H0. assert (I : Inv st) by (eapply reachable_inv; exists sched0; exact H0).
+  intros c sched0 st sched st' Hclk H0. assert (I : Inv st) by (eapply reachable_inv; [exact Hclk|exists sched0; exact H0]).
   clear H0. revert st I. induction sched as [|e r IH]; intros st I H; cbn [crun] in H.
   - inversion H; subst. lia.
   - destruct (cstep c st e) as [s1|] eqn:E; [|discriminate].
-    pose proof (step_ptr_mono _ _ _ _ I E). pose proof (IH s1 (step_inv _ _ _ _ I E) H). lia.
+    pose proof (step_ptr_mono _ _ _ _ I E). pose proof (IH s1 (step_inv _ _ _ _ Hclk I E) H). lia.
 Qed.
 
 (* the stale branch itself: an older snapshot leaves the manifest alone and removes only its own file *)
@@ -954,14 +957,14 @@ Proof.
   destruct (covered last e); cbn [negb]; [apply IH|cbn [fold_left]; apply IH].
 Qed.
 
-Theorem no_duplicate_effect : forall c sched st,
+Theorem no_duplicate_effect : forall c sched st, distinct_ids c ->
   crun c init sched = Some st ->
   exists (last : N) (docs : store) (es : list entry),
     read_segs (st_files st) (m_segs (st_man st)) = Some es /\
     recover (disk_of st) = Some (apply_entries docs (filter (fun e => negb (covered last e)) es)) /\
     StronglySorted N.lt (map e_seq es).
 Proof.
-  intros c sched st H. assert (I : Inv st) by (eapply reachable_inv; exists sched; exact H).
+  intros c sched st Hclk H. assert (I : Inv st) by (eapply reachable_inv; [exact Hclk|exists sched; exact H]).
   destruct (inv_gv _ I) as [[Gn1 Gn2] Gnd Gl [pre Gla] Gb Gp Gb0 Gb1 Gr Gs].
   unfold view_of in *. vsimp. unfold listed in *. vsimp.
   assert (Hr : read_segs (st_files st) (m_segs (st_man st)) = Some (flat (st_files st) (m_segs (st_man st))))
